@@ -1,4 +1,5 @@
 import Tmv.Lemmas.EvidenceInv
+import Tmv.Lemmas.EvidenceLCA
 /-! C11 — Evidence is admitted exactly when valid, fresh and new, and is used once.
 
 Theorems about the model `Tmv/Model/Evidence.lean` (= /repo evidence/pool.go, evidence/verify.go after
@@ -25,6 +26,58 @@ theorem verify_iff (storeH : Int) (st : State) (e : Ev) :
 theorem expired_iff (st : State) (h t : Int) :
     expired st h t = true ↔ (st.height - h > st.maxAgeBlocks ∧ st.time - t > st.maxAgeDur) := by
   simp [expired]
+
+/-! ### light-client-attack evidence: `VerifyLightClientAttack`, `validateABCIEvidence`,
+`GetByzantineValidators`, `ConflictingHeaderIsInvalid` (commit checks = C07's model) -/
+
+/-- `VerifyLightClientAttack(ev, common header, trusted header at th, common validators)` accepts
+exactly when the evidence shows an attack against the node's own chain (`LCAAttack`): for a lunatic
+jump, one light-client step from the common validators (C07 `verifyCommitLightTrusting` at 1/3), for
+the same height a correctly derived header; +2/3 of the conflicting set signed (C07
+`verifyCommitLight`, so C07's `light_sound` / `trusting_sound` apply to these conjuncts); the total
+power is the common set's; the block conflicts (other hash, not just a later block); and the listed
+byzantine validators are, in order, those `GetByzantineValidators` derives. -/
+theorem lca_admitted_iff (l : LCA) (th : Int) :
+    lcaOK c l th = true ↔
+      ∃ cb tb, blockAt c l.common = some cb ∧ blockAt c th = some tb ∧ LCAAttack c l cb.vals th tb :=
+  lcaOK_iff c l th
+
+/-- ... and with the stores' availability conditions: what `Proves` (hence `add_admits_iff`,
+`pending_sound`, `check_admits_only`, `check_passes_if`) means for light-client-attack evidence. -/
+theorem proves_lca_iff (storeH : Int) (l : LCA) :
+    Proves c storeH (.lca l) ↔
+      (metaTime c storeH l.common = some l.time ∧
+       (signedHeader c storeH l.common).isSome ∧ (loadVals c storeH l.common).isSome ∧
+       ((l.common ≠ l.cfh ∧ (signedHeader c storeH l.cfh).isSome) ∨ l.common = l.cfh) ∧
+       ∃ cb tb, blockAt c l.common = some cb ∧ blockAt c l.cfh = some tb ∧ LCAAttack c l cb.vals l.cfh tb) := by
+  unfold Proves LCAProves
+  simp only [Ev.height, Ev.time]
+  rw [lcaOK_iff]
+
+/-- lunatic attack (the conflicting header is not derived from the trusted state): the byzantine
+validators are exactly the members of the COMMON validator set with a for-block slot in the
+conflicting commit, ordered by power -/
+theorem lca_byzantine_lunatic (l : LCA) (cv : List Validator) (t : Block) (vs : List Validator)
+    (h : getByz l cv t = some vs) (hi : headerInvalid l t = true) (v : Validator) :
+    v ∈ vs ↔ ∃ s ∈ l.sigs, s.flag = CommitVerify.flagCommit ∧ findVal cv s.addr = some v := by
+  rw [(getByz_classification l cv t vs h).1 hi, mem_sortByPower, mem_lunaticSigners]
+
+/-- equivocation (derived header, same round): every byzantine validator is a member of the
+conflicting set named by a slot present in the conflicting commit whose position is also present in
+the trusted commit -/
+theorem lca_byzantine_equivocation (l : LCA) (cv : List Validator) (t : Block) (vs : List Validator)
+    (h : getByz l cv t = some vs) (hi : headerInvalid l t = false) (hr : t.round = l.round)
+    (v : Validator) (hv : v ∈ vs) :
+    ∃ (i : Nat) (s : CSig), l.sigs[i]? = some s ∧ s.flag ≠ CommitVerify.flagAbsent ∧
+      (∃ f : Nat, t.flags[i]? = some f ∧ f ≠ CommitVerify.flagAbsent) ∧ findVal l.cvals s.addr = some v := by
+  obtain ⟨r, h1, h2⟩ := (getByz_classification l cv t vs h).2.1 hi hr
+  rw [h2, mem_sortByPower] at hv
+  exact mem_equivocators l l.sigs t.flags r h1 v hv
+
+/-- amnesia (derived header, another round): nobody is named -/
+theorem lca_byzantine_amnesia (l : LCA) (cv : List Validator) (t : Block) (vs : List Validator)
+    (h : getByz l cv t = some vs) (hi : headerInvalid l t = false) (hr : t.round ≠ l.round) : vs = [] :=
+  (getByz_classification l cv t vs h).2.2 hi hr
 
 /-- Observation (not a violation of the only-if statement): light-client-attack evidence whose
 conflicting block is at or above the node's latest block — the "forward lunatic" case `verify` has
@@ -375,6 +428,89 @@ theorem pending_keys_sorted (hm : MonoTime c) {s : Sys} (hr : Reach c s) :
     List.Pairwise (fun a b => keyLt (key c a) (key c b) = true) s.pool.pending :=
   (reach_inv c hm hr).pool.sorted
 
+/-! ## the reactor: evidence from peers enters only through AddEvidence -/
+
+def _root_.Tmv.Evidence.Res.isInvalid : Res → Bool
+  | .invalid _ => true
+  | _ => false
+
+theorem receive_cons (s : Sys) (e : Ev) (rest : List Ev) :
+    receive c s (e :: rest) =
+      if (step c s (.add e)).2.isInvalid then ((step c s (.add e)).1, true)
+      else receive c (step c s (.add e)).1 rest := by
+  simp only [receive]
+  generalize step c s (.add e) = p
+  obtain ⟨s', r⟩ := p
+  cases r <;> simp [Res.isInvalid]
+
+/-- a peer message is a sequence of AddEvidence calls: the state it leaves is reachable, so
+`pending_sound` (every pending item proven, unexpired, uncommitted) holds after it -/
+theorem receive_reach {s : Sys} (hr : Reach c s) (l : List Ev) : Reach c (receive c s l).1 := by
+  induction l generalizing s with
+  | nil => exact hr
+  | cons e rest ih =>
+    rw [receive_cons]
+    have hr' : Reach c (step c s (.add e)).1 := Reach.step (.add e) hr trivial
+    split
+    · exact hr'
+    · exact ih hr'
+
+/-- whatever a peer sends, afterwards every pending item proves its claim, is unexpired and
+uncommitted -/
+theorem receive_admits_only (hm : MonoTime c) {s : Sys} (hr : Reach c s) (l : List Ev)
+    (hd : (receive c s l).1.dead = false)
+    (hsmall : (receive c s l).1.pool.pending.length < 4294967296) :
+    ∀ e ∈ (receive c s l).1.pool.pending,
+      Proves c (receive c s l).1.storeH e ∧
+      expired (receive c s l).1.pool.state e.height e.time = false ∧
+      isCommitted c (receive c s l).1.pool e = false :=
+  pending_sound c hm (receive_reach c hr l) hd hsmall
+
+/-- the peer is stopped exactly when one of its items (all before it accepted) is rejected by
+AddEvidence as invalid -/
+theorem receive_stops_iff (s : Sys) (l : List Ev) :
+    (receive c s l).2 = true ↔
+      ∃ pre e post, l = pre ++ e :: post ∧ (receive c s pre).2 = false ∧
+        (step c (receive c s pre).1 (.add e)).2.isInvalid = true := by
+  induction l generalizing s with
+  | nil => simp [receive]
+  | cons e rest ih =>
+    rw [receive_cons]
+    by_cases hi : (step c s (.add e)).2.isInvalid = true
+    · simp only [hi, ↓reduceIte, true_iff]
+      exact ⟨[], e, rest, rfl, by simp [receive], by simpa [receive] using hi⟩
+    · simp only [hi, Bool.false_eq_true, ↓reduceIte]
+      rw [ih]
+      constructor
+      · rintro ⟨pre, e', post, h1, h2, h3⟩
+        refine ⟨e :: pre, e', post, by simp [h1], ?_, ?_⟩
+        · rw [receive_cons]; simp only [hi, Bool.false_eq_true, ↓reduceIte]; exact h2
+        · rw [receive_cons]; simp only [hi, Bool.false_eq_true, ↓reduceIte]; exact h3
+      · rintro ⟨pre, e', post, h1, h2, h3⟩
+        cases pre with
+        | nil =>
+          simp at h1
+          obtain ⟨rfl, rfl⟩ := h1
+          simp [receive] at h3
+          exact absurd h3 hi
+        | cons p pre' =>
+          simp at h1
+          obtain ⟨rfl, rfl⟩ := h1
+          rw [receive_cons] at h2 h3
+          simp only [hi, Bool.false_eq_true, ↓reduceIte] at h2 h3
+          exact ⟨pre', e', post, rfl, h2, h3⟩
+
+/-- gossip: evidence goes to a peer exactly when the peer is above the evidence's height and the
+evidence is not older than `MaxAgeNumBlocks` for that peer -/
+theorem prepare_iff (st : State) (e : Ev) (ph : Int) :
+    prepare st e ph = true ↔ (e.height < ph ∧ ph - e.height ≤ st.maxAgeBlocks) := by
+  unfold prepare
+  split
+  · simp; omega
+  · split
+    · simp; omega
+    · simp; omega
+
 /-! ## non-vacuity: a concrete chain, genuine evidence, a reachable state with it pending -/
 
 def exVal : Validator := { addr := "k0", power := 10, pkAddr := "k0" }
@@ -437,5 +573,36 @@ example : (step exCtx exSys (.check [.dv exDV])).2 = .ok ∧
 /-- at height 4 (age 2 > 1 blocks, 200 > 50 time units) the pending item has expired and is pruned -/
 example : (run exCtx exSys [.grow 4, .update 4 []]).pool.pending = [] ∧
     (step exCtx (run exCtx exSys [.grow 4, .update 4 []]) (.add (.dv exDV))).2 = .invalid .expired := by decide
+
+/-! ## non-vacuity: light-client-attack evidence -/
+
+def lVal1 : Validator := { addr := "aa", power := 10, pkAddr := "aa", key := 1 }
+def lVal2 : Validator := { addr := "bb", power := 5, pkAddr := "bb", key := 2 }
+def lDer : Derived := ⟨"v", "n", "c", "a", "r"⟩
+
+/-- a chain whose block 2 was committed in round 0 by both validators -/
+def lCtx : Ctx :=
+  { blocks := [{ time := 100, vals := [lVal1, lVal2], hash := "h1", derived := lDer, round := 0, flags := [2, 2] },
+               { time := 200, vals := [lVal1, lVal2], hash := "h2", derived := lDer, round := 0, flags := [2, 2] },
+               { time := 300, vals := [lVal1, lVal2], hash := "h3", derived := lDer, round := 0, flags := [2, 2] }],
+    maxAgeBlocks := 5, maxAgeDur := 500, H := fun _ => 7, S := fun _ => 900, sigOK := fun _ _ => false,
+    chainID := "x", csigOK := fun k _ s => s == toString k }
+
+/-- equivocation at height 2: another block (hash "other"), same derived fields, same round, signed
+by both validators -/
+def lEquiv : LCA :=
+  { common := 2, cfh := 2, cft := 200, tvp := 15, time := 200, chash := "other", cderived := lDer,
+    commitHeight := 2, round := 0, sigs := [⟨2, "aa", "1"⟩, ⟨2, "bb", "2"⟩], cvals := [lVal1, lVal2],
+    byz := [("aa", 10), ("bb", 5)], tag := "" }
+
+example : lcaOK lCtx lEquiv 2 = true := by decide
+/-- only validator "aa" signed: 10 of 15 is not more than 2/3 -/
+example : lcaOK lCtx { lEquiv with sigs := [⟨2, "aa", "1"⟩, ⟨1, "bb", ""⟩], byz := [("aa", 10)] } 2 = false := by decide
+/-- a wrong byzantine list is rejected -/
+example : lcaOK lCtx { lEquiv with byz := [("aa", 10)] } 2 = false := by decide
+/-- admitted by the pool once block 3 (carrying block 2's commit) is stored -/
+example : (step lCtx (initSys lCtx 3) (.add (.lca lEquiv))).1.pool.pending = [.lca lEquiv] := by decide
+/-- the same block in another round is an amnesia attack: nobody can be named -/
+example : lcaOK lCtx { lEquiv with round := 1, byz := [] } 2 = true := by decide
 
 end Tmv.Props.C11
